@@ -19,16 +19,32 @@ def Op.isIndep : Op → Bool
   | .reset true => true
   | _ => false
 
+/-- a parameter setter -/
+def Op.isSet : Op → Bool
+  | .setCn2 _ | .setL0 _ | .setVel _ => true
+  | _ => false
+
 /-! ### finite layer -/
 
-theorem FinL.reset_false_eq_fresh (L : FinL) : L.reset false = FinL.fresh L.nx L.ny L.vel L.orig := by
+theorem FinL.reset_false_eq_fresh (L : FinL) : L.reset false = FinL.fresh L.nx L.ny L.vel L.par L.orig := by
   simp [FinL.reset, FinL.fresh, FinL.pickRng, FinL.makeNoise, FinL.draws]
 
-theorem FinL.step_params (L : FinL) (o : Op) :
-    (L.step o).nx = L.nx ∧ (L.step o).ny = L.ny ∧ (L.step o).vel = L.vel := by
+theorem FinL.step_shape (L : FinL) (o : Op) : (L.step o).nx = L.nx ∧ (L.step o).ny = L.ny := by
   cases o with
   | evolve t => simp [FinL.step, FinL.evolve]
   | reset b => cases b <;> simp [FinL.step, FinL.reset, FinL.pickRng, FinL.makeNoise]
+  | setCn2 c => simp [FinL.step, FinL.setCn2]
+  | setL0 c => simp [FinL.step, FinL.setL0]
+  | setVel c => simp [FinL.step, FinL.setVel]
+
+theorem FinL.step_params (L : FinL) (o : Op) (h : o.isSet = false) :
+    (L.step o).vel = L.vel ∧ (L.step o).par = L.par := by
+  cases o with
+  | evolve t => simp [FinL.step, FinL.evolve]
+  | reset b => cases b <;> simp [FinL.step, FinL.reset, FinL.pickRng, FinL.makeNoise]
+  | setCn2 c => simp [Op.isSet] at h
+  | setL0 c => simp [Op.isSet] at h
+  | setVel c => simp [Op.isSet] at h
 
 theorem FinL.step_orig (L : FinL) (o : Op) (h : o.isIndep = false) : (L.step o).orig = L.orig := by
   cases o with
@@ -37,16 +53,28 @@ theorem FinL.step_orig (L : FinL) (o : Op) (h : o.isIndep = false) : (L.step o).
     cases b
     · simp [FinL.step, FinL.reset, FinL.pickRng, FinL.makeNoise]
     · simp [Op.isIndep] at h
+  | setCn2 c => simp [FinL.step, FinL.setCn2]
+  | setL0 c => simp [FinL.step, FinL.setL0]
+  | setVel c => simp [FinL.step, FinL.setVel]
 
-theorem FinL.run_params (L : FinL) (h : List Op) :
-    (L.run h).nx = L.nx ∧ (L.run h).ny = L.ny ∧ (L.run h).vel = L.vel := by
+theorem FinL.run_shape (L : FinL) (h : List Op) : (L.run h).nx = L.nx ∧ (L.run h).ny = L.ny := by
   induction h generalizing L with
   | nil => simp [FinL.run]
   | cons o h ih =>
     have := ih (L.step o)
-    have hs := L.step_params o
+    have hs := L.step_shape o
     simp only [FinL.run, List.foldl_cons] at this ⊢
-    rw [this.1, this.2.1, this.2.2, hs.1, hs.2.1, hs.2.2]; exact ⟨rfl, rfl, rfl⟩
+    rw [this.1, this.2, hs.1, hs.2]; exact ⟨rfl, rfl⟩
+
+theorem FinL.run_params (L : FinL) (h : List Op) (hh : ∀ o ∈ h, o.isSet = false) :
+    (L.run h).vel = L.vel ∧ (L.run h).par = L.par := by
+  induction h generalizing L with
+  | nil => simp [FinL.run]
+  | cons o h ih =>
+    have := ih (L.step o) (fun o' ho' => hh o' (by simp [ho']))
+    have hs := L.step_params o (hh o (by simp))
+    simp only [FinL.run, List.foldl_cons] at this ⊢
+    rw [this.1, this.2, hs.1, hs.2]; exact ⟨rfl, rfl⟩
 
 theorem FinL.run_orig (L : FinL) (h : List Op) (hh : ∀ o ∈ h, o.isIndep = false) :
     (L.run h).orig = L.orig := by
@@ -56,6 +84,9 @@ theorem FinL.run_orig (L : FinL) (h : List Op) (hh : ∀ o ∈ h, o.isIndep = fa
     have := ih (L.step o) (fun o' ho' => hh o' (by simp [ho']))
     simp only [FinL.run, List.foldl_cons] at this ⊢
     rw [this, L.step_orig o (hh o (by simp))]
+
+theorem FinL.run_append (L : FinL) (h₁ h₂ : List Op) : L.run (h₁ ++ h₂) = (L.run h₁).run h₂ := by
+  simp [FinL.run, List.foldl_append]
 
 /-- what every reset establishes: the noise was drawn from the original generator's state and
 the working generator is exactly past that draw -/
@@ -68,17 +99,20 @@ theorem FinL.step_inv (L : FinL) (o : Op) (hi : L.Inv) : (L.step o).Inv := by
   cases o with
   | evolve t => simpa [FinL.step, FinL.evolve, FinL.Inv, FinL.draws] using hi
   | reset b => exact L.reset_inv b
+  | setCn2 c => simpa [FinL.step, FinL.setCn2, FinL.Inv, FinL.draws] using hi
+  | setL0 c => simpa [FinL.step, FinL.setL0, FinL.Inv, FinL.draws] using hi
+  | setVel c => simpa [FinL.step, FinL.setVel, FinL.Inv, FinL.draws] using hi
 
 /-! ### infinite layer -/
 
 theorem InfL.reset_false_eq_fresh (L : InfL) :
-    L.reset false = InfL.fresh L.nx L.ny L.delta L.vel L.orig := by
+    L.reset false = InfL.fresh L.nx L.ny L.delta L.vel L.par L.orig := by
   simp [InfL.reset, InfL.fresh, InfL.pickRng, InfL.initScreen]
 
 theorem InfL.extrudeN_params (w : Where) (k : Nat) (L : InfL) :
     (InfL.extrudeN w k L).nx = L.nx ∧ (InfL.extrudeN w k L).ny = L.ny ∧ (InfL.extrudeN w k L).delta = L.delta ∧
     (InfL.extrudeN w k L).vel = L.vel ∧ (InfL.extrudeN w k L).orig = L.orig ∧
-    (InfL.extrudeN w k L).start = L.start := by
+    (InfL.extrudeN w k L).start = L.start ∧ (InfL.extrudeN w k L).par = L.par := by
   induction k generalizing L with
   | zero => simp [InfL.extrudeN]
   | succ k ih =>
@@ -86,8 +120,8 @@ theorem InfL.extrudeN_params (w : Where) (k : Nat) (L : InfL) :
     simp only [InfL.extrudeN]
     simpa [InfL.extrude1] using this
 
-theorem InfL.step_params (L : InfL) (o : Op) :
-    (L.step o).nx = L.nx ∧ (L.step o).ny = L.ny ∧ (L.step o).delta = L.delta ∧ (L.step o).vel = L.vel := by
+theorem InfL.step_shape (L : InfL) (o : Op) :
+    (L.step o).nx = L.nx ∧ (L.step o).ny = L.ny ∧ (L.step o).delta = L.delta := by
   cases o with
   | evolve t =>
     simp only [InfL.step, InfL.evolve]
@@ -96,6 +130,23 @@ theorem InfL.step_params (L : InfL) (o : Op) :
     · have h1 := InfL.extrudeN_params
       simp [InfL.evolveWith, h1]
   | reset b => cases b <;> simp [InfL.step, InfL.reset, InfL.pickRng, InfL.initScreen]
+  | setCn2 c => simp [InfL.step, InfL.setCn2]
+  | setL0 c => simp [InfL.step, InfL.setL0]
+  | setVel c => simp [InfL.step, InfL.setVel]
+
+theorem InfL.step_params (L : InfL) (o : Op) (h : o.isSet = false) :
+    (L.step o).vel = L.vel ∧ (L.step o).par = L.par := by
+  cases o with
+  | evolve t =>
+    simp only [InfL.step, InfL.evolve]
+    split
+    · simp
+    · have h1 := InfL.extrudeN_params
+      simp [InfL.evolveWith, h1]
+  | reset b => cases b <;> simp [InfL.step, InfL.reset, InfL.pickRng, InfL.initScreen]
+  | setCn2 c => simp [Op.isSet] at h
+  | setL0 c => simp [Op.isSet] at h
+  | setVel c => simp [Op.isSet] at h
 
 theorem InfL.step_orig (L : InfL) (o : Op) (h : o.isIndep = false) : (L.step o).orig = L.orig := by
   cases o with
@@ -109,16 +160,29 @@ theorem InfL.step_orig (L : InfL) (o : Op) (h : o.isIndep = false) : (L.step o).
     cases b
     · simp [InfL.step, InfL.reset, InfL.pickRng, InfL.initScreen]
     · simp [Op.isIndep] at h
+  | setCn2 c => simp [InfL.step, InfL.setCn2]
+  | setL0 c => simp [InfL.step, InfL.setL0]
+  | setVel c => simp [InfL.step, InfL.setVel]
 
-theorem InfL.run_params (L : InfL) (h : List Op) :
-    (L.run h).nx = L.nx ∧ (L.run h).ny = L.ny ∧ (L.run h).delta = L.delta ∧ (L.run h).vel = L.vel := by
+theorem InfL.run_shape (L : InfL) (h : List Op) :
+    (L.run h).nx = L.nx ∧ (L.run h).ny = L.ny ∧ (L.run h).delta = L.delta := by
   induction h generalizing L with
   | nil => simp [InfL.run]
   | cons o h ih =>
     have := ih (L.step o)
-    have hs := L.step_params o
+    have hs := L.step_shape o
     simp only [InfL.run, List.foldl_cons] at this ⊢
-    rw [this.1, this.2.1, this.2.2.1, this.2.2.2, hs.1, hs.2.1, hs.2.2.1, hs.2.2.2]; exact ⟨rfl, rfl, rfl, rfl⟩
+    rw [this.1, this.2.1, this.2.2, hs.1, hs.2.1, hs.2.2]; exact ⟨rfl, rfl, rfl⟩
+
+theorem InfL.run_params (L : InfL) (h : List Op) (hh : ∀ o ∈ h, o.isSet = false) :
+    (L.run h).vel = L.vel ∧ (L.run h).par = L.par := by
+  induction h generalizing L with
+  | nil => simp [InfL.run]
+  | cons o h ih =>
+    have := ih (L.step o) (fun o' ho' => hh o' (by simp [ho']))
+    have hs := L.step_params o (hh o (by simp))
+    simp only [InfL.run, List.foldl_cons] at this ⊢
+    rw [this.1, this.2, hs.1, hs.2]; exact ⟨rfl, rfl⟩
 
 theorem InfL.run_orig (L : InfL) (h : List Op) (hh : ∀ o ∈ h, o.isIndep = false) :
     (L.run h).orig = L.orig := by
